@@ -279,6 +279,39 @@ def run(ctx: Ctx) -> None:
     if len(dec_calls) != 1:
         raise AnalysisError(f"anchor=decompress call in _CompressionMiddleware.process_request: found {len(dec_calls)}")
     dec = dec_calls[0]
+    # a body that is not a valid frame of its declared coding makes the decoder *library* raise its own class
+    # (zlib.error, zstandard.ZstdError -- plain Exception subclasses the codec module does not wrap): the handler
+    # around the decode must cover them and answer 400, or Falcon renders a 500 for a malformed request
+    from ..exc import ExcModel as _EM, handler_reraises as _hr
+    from ..util import try_protecting as _tp
+
+    _m17 = _EM(ctx.repo, ctx.res)
+    _ccfg = cfg_of(cpr.node)
+    _need = (("error", "zlib.error"), ("ZstdError", "zstandard.ZstdError"))
+    _uncovered: list[str] = []
+    _h400 = None
+    for short, full in _need:
+        hit = None
+        for t in _tp(_ccfg, dec):
+            for h in t.handlers:
+                names = set() if h.type is None else {txt(x) for x in (h.type.elts if isinstance(h.type, ast.Tuple) else [h.type])}
+                if h.type is None or names & {"Exception", "BaseException", short, full}:
+                    hit = h
+                    break
+                # an earlier clause that covers a *repo* class only does not shadow the library class
+            if hit is not None:
+                break
+        if hit is None:
+            _uncovered.append(full)
+        else:
+            _h400 = hit
+            raised = [txt(r.exc.func) for st in hit.body for r in walk_scope(st) if isinstance(r, ast.Raise) and isinstance(r.exc, ast.Call)]
+            if not any(x.endswith("HTTPBadRequest") for x in raised):
+                _uncovered.append(f"{full} (handler does not answer 400)")
+    ctx.check(not _uncovered, "RF-EXC", "undecodable-body->400:decoder-library-errors", cpr, _h400 or dec,
+              ok="zlib.error / zstandard.ZstdError raised by the decoder for an invalid frame are caught around the decode and answered 400",
+              bad=f"{_uncovered} raised by the decoder library for a body that is not a valid frame of its declared Content-Encoding is not caught around `{txt(dec)[:50]}`: "
+              "the malformed request is answered by Falcon's 500 instead of 400")
     creads = [c for c in calls(cpr) if last_attr(c) == "read"]
     # which self attribute holds the decodable set: the one tested by membership against the request codec
     dec_attr = None
